@@ -19,7 +19,7 @@ def generate(tier, seed):
         d = K["rbac_dom" if dom else "rbac"]
         sp = spec_of(d)
         dm = "d1" if dom else "-"
-        n = 250 if tier == "quick" else 2500
+        n = 250 if tier == "quick" else 15000
         for _ in range(n):
             links = set()
             for _ in range(rnd.randint(0, 6)):
